@@ -197,6 +197,11 @@ func (w *c15World) refresh(rt *rapid.T, forceValid ...bool) error {
 		set.Validators = append(set.Validators, &cmtproto.Validator{Address: v.addr, PubKey: pk, VotingPower: v.power})
 		offered[string(v.addr)] = v
 	}
+	// the total_voting_power field of the set is not covered by the L1 validators hash: a header that the light
+	// client accepts can carry any number there; the powers of the listed validators are what counts
+	if rapid.IntRange(0, 2).Draw(rt, "statedTotal") == 0 {
+		set.TotalVotingPower = rapid.SampledFrom([]int64{1, 2, 7, 1 << 40}).Draw(rt, "totalVotingPower")
+	}
 	if w.badKeyNext {
 		// the light client hands over a set in which one entry (not the first) has a consensus key that cannot
 		// be converted: the refresh fails, and the transaction that carried it is rolled back - the caller
@@ -373,6 +378,11 @@ func (w *c15World) buildEntry(rt *rapid.T, kind string, v c15Val, height int64, 
 		vote.BlockIdFlag = cmtproto.BlockIDFlagNil
 	case "no-signature":
 		vote.ExtensionSignature = nil
+	case "long-signature":
+		// a signature with one byte too many (an honest signature followed by a zero)
+		vote.ExtensionSignature = append(append([]byte{}, vote.ExtensionSignature...), 0)
+	case "short-signature":
+		vote.ExtensionSignature = append([]byte{}, vote.ExtensionSignature[:len(vote.ExtensionSignature)-1]...)
 	}
 	return vote
 }
@@ -465,7 +475,7 @@ func (w *c15World) safety(before, after map[string]c15Price, r henv.Result, send
 }
 
 var c15Kinds = []weighted{{"honest", 30}, {"subset", 3}, {"missing", 3}, {"duplicate", 2}, {"dup-forged", 2}, {"odd-flag-forged", 2}, {"other-key", 1}, {"wrong-chain", 1}, {"height+1", 1}, {"height-1", 1}, {"round+1", 1},
-	{"altered", 1}, {"unknown-validator", 2}, {"nil-vote", 2}, {"absent", 2}, {"nil-with-payload", 1}, {"no-signature", 1}, {"oversized", 1}, {"unknown-pair", 1}, {"no-timestamp", 1}}
+	{"altered", 1}, {"unknown-validator", 2}, {"nil-vote", 2}, {"absent", 2}, {"nil-with-payload", 1}, {"no-signature", 1}, {"long-signature", 2}, {"short-signature", 1}, {"oversized", 1}, {"unknown-pair", 1}, {"no-timestamp", 1}}
 
 func TestC15Rapid(t *testing.T) {
 	rec := evid.For("C15")
